@@ -575,9 +575,10 @@ pub fn plan(prop: &str, tier: &str) -> Option<Plan> {
             let total = seq::decision_triples().len() as i64;
             let mut e0s: Vec<i64> = (0..16).collect();
             if !quick {
-                e0s.extend([65530, 65535, 65536, 4294967290, 4294967296, 1099511627776]);
+                e0s.extend([65530, 65535, 65536, 4294967290, 4294967296, 1099511627776, i64::MAX - 40, i64::MAX - 33, i64::MAX - 30]);
             } else {
-                e0s = vec![0, 3, 8, 13, 15, 65535];
+                // (the last one: the cascades run in the last thirty epochs there are)
+                e0s = vec![0, 3, 8, 13, 15, 65535, i64::MAX - 33];
             }
             for &e0 in e0s.iter() {
                 b.add_cases("seq/cascade-decision", e(e0), total, 500);
